@@ -11,8 +11,9 @@ portable and BMI2) on every check.
 Proved here, for ALL bodies, modes, masks, rotations and both polarities:
 * length law, round trip, canonicity (the decoder accepts only the encoder's output), rejection of
   invalid parameters and inconsistent lengths, the rotation law `((i mod 64)·R) mod 64 = (i·R) mod 64`.
-Not proved (partial): that the portable Go loop (`mask & -mask` / `mask &= mask-1`) equals the
-bit-by-bit PDEP/PEXT spec, and the BMI2 instructions — both are differential only (see DESIGN.md).
+Also proved: the portable Go loop (`mask & -mask` / `mask &= mask-1`), transcribed on 64-bit naturals,
+equals the bit-by-bit PDEP/PEXT spec for ALL 2^128 pairs (`pdepGo_eq_spec`, `pextGo_eq_spec`).
+Not proved (partial): the BMI2 instructions are hardware — differential only (see DESIGN.md).
 -/
 namespace Mieru.C17
 open Mieru Mieru.LowEntropy
